@@ -225,12 +225,20 @@ Declared(s, op, x) ==
       [] op = "ser" -> DeclSer(s, x)
       [] op = "compat" -> Unspec          \* no property states the acceptance set of data-mode compatibility
 
-\* declared outcome (accept / reject / open) of each direct child of a container argument: lets
-\* the harness name the position where code and statement first diverge (signature kind_at_fault)
+\* declared outcome (accept / reject / open) of every element below a container argument, as a tree
+\* [ok, kids] (list: one node per item; map: key node, value node, key node, ...): lets the harness
+\* name the position where code and statement first diverge (signature kind_at_fault)
+RECURSIVE Sub(_, _, _)
+SubNode(s, op, x) == [ok |-> Declared(s, op, x).ok, kids |-> Sub(s, op, x)]
 Sub(s, op, x) ==
-    CASE s.kind = "list" /\ x.k = "list" -> [i \in 1..Len(x.v) |-> <<Declared(s.items, op, x.v[i]).ok>>]
-      [] s.kind = "map" /\ x.k = "map" ->
-            [i \in 1..Len(x.v) |-> <<Declared(s.keys, op, x.v[i][1]).ok, Declared(s.values, op, x.v[i][2]).ok>>]
+    CASE s.kind = "list" /\ x.k = "list" -> [i \in 1..Len(x.v) |-> SubNode(s.items, op, x.v[i])]
+      [] s.kind = "any" /\ x.k = "list" -> [i \in 1..Len(x.v) |-> SubNode(s, op, x.v[i])]
+      [] s.kind \in {"map", "any"} /\ x.k = "map" ->
+            [j \in 1..(2 * Len(x.v)) |->
+                LET i == (j + 1) \div 2
+                    ks == IF s.kind = "map" THEN s.keys ELSE s
+                    ws == IF s.kind = "map" THEN s.values ELSE s
+                IN IF j % 2 = 1 THEN SubNode(ks, op, x.v[i][1]) ELSE SubNode(ws, op, x.v[i][2])]
       [] OTHER -> <<>>
 
 \* ------------------------------------------------------------------ the invariants
